@@ -5,14 +5,14 @@ CONSTANTS
   MaxRxns = 3
   GridSeq <- G_Five
   StateModes <- M_Pat
-  Patterns <- P_Many
+  Patterns <- P_Few
   Extents <- X_Few
-  Deltas <- D_Many
+  Deltas <- D_Few
   Factors <- F_Few
-  Shifts <- S_Many
+  Shifts <- S_Few
   PertKinds <- K_All
-  NumSyss <- N_Three
-  RrefFlags <- FL_All
+  NumSyss <- N_Lin
+  RrefFlags <- FL_Two
 INVARIANT TypeOK
 INVARIANT BackwardConstructionIsEquilibrium
 INVARIANT PerturbationBreaksOneClause
